@@ -3168,6 +3168,10 @@ void SGXMLScanner::scanReset(const InputSource& src)
     if (fValidatorFromUser)
         fValidator->reset();
 
+    //  A progressive scan that was abandoned without parseReset() leaves its readers on
+    //  the reader stack: start every scan from an empty reader manager.
+    fReaderMgr.reset();
+
     //  Handle the creation of the XML reader object for this input source.
     //  This will provide us with transcoding and basic lexing services.
     XMLReader* newReader = fReaderMgr.createReader
